@@ -230,3 +230,29 @@ Qed.
 Lemma e_facts :
   child_of e_state 1 16 16 /\ registered x_path e_state 16 /\ x_par 16 = Some 1 /\ child_of e_state 0 1 1.
 Proof. repeat split; vm_compute; reflexivity. Qed.
+
+(** ** uniqueness of registration: the registration step is an atomic LoadOrStore, so a path names at most one live context.
+    Of two distinct contexts with the same path that have both been registered at some time (two successful spawns under one
+    name), at least one is dead (state killed: released, or in the course of its release) - in every reachable state. *)
+Section Unique.
+  Variable root : aid.
+  Variable par : aid -> option aid.
+  Variable path_of : aid -> apath.
+  Hypothesis path_root : forall c, c <> root -> path_of c <> path_of root.
+  Hypothesis par_root : par root = None.
+
+  Theorem tree_registration_unique s c c' :
+    treachable root par path_of s ->
+    t_pub s c = true -> t_pub s c' = true -> c <> root -> c' <> root -> path_of c = path_of c' -> c <> c' ->
+    (t_st s c = Killed /\ ~ registered path_of s c) \/ (t_st s c' = Killed /\ ~ registered path_of s c').
+  Proof.
+    intros Hr P1 P2 R1 R2 Hp Hne. pose proof (inv_reachable root par path_of path_root par_root s Hr) as I.
+    assert (D : forall x, t_pub s x = true -> x <> root ->
+                registered path_of s x \/ (t_st s x = Killed /\ ~ registered path_of s x)).
+    { intros x Px Rx. destruct (k7 _ _ _ _ I _ Px Rx) as [A|[A|A]]; [left; exact A|right|right].
+      - destruct (k5c _ _ _ _ I _ A) as (B & _ & C). auto.
+      - destruct A as (B & _ & _ & C). auto. }
+    destruct (D c P1 R1) as [A|A]; [|left; exact A]. destruct (D c' P2 R2) as [B|B]; [|right; exact B].
+    exfalso. unfold registered in A, B. rewrite Hp in A. rewrite A in B. injection B as ->. apply Hne. reflexivity.
+  Qed.
+End Unique.
